@@ -522,13 +522,18 @@ def c14_flag_errors(rep, tier, seed, rows):
     rnd = random.Random(seed)
     names = [n for n, _ in []] or ["affects", "keep-sorted", "keep-unique", "line-pattern", "line-count", "check-ai", "check-lua"]
     scen = []
-    for k in range(24 if tier == "quick" else 120):
+    for k in range(60 if tier == "quick" else 300):
         case = rows[k % len(rows)][0]
         kind = k % 3
         if kind == 0:
             args = ["-e", rnd.choice(names), "-d", rnd.choice(names)]
         elif kind == 1:
-            args = [rnd.choice(["-e", "-d"]), rnd.choice(["keep-sort", "KEEP-SORTED", "", "all", "check_lua", " keep-unique"])]
+            # unknown names: fragments of valid names (and of their comma-joined list), other letter case, stray blanks, near misses
+            base = rnd.choice(names)
+            a, b = sorted(rnd.sample(range(len(base) + 1), 2))
+            frag = base[a:b] if base[a:b] != base else base[:-1]
+            args = [rnd.choice(["-e", "-d"]), rnd.choice(["keep-sort", "KEEP-SORTED", "", "all", "check_lua", " keep-unique", frag, frag, base.upper(), base + " ",
+                                                          " " + base, base + ",", ", ", "-", base.replace("-", "_"), base + "s", ",".join(names[:2])])]
         else:
             args = ["-d", rnd.choice(names), "--enable", rnd.choice(names), "-d", rnd.choice(names)]
         scen.append((case, args))
@@ -1264,8 +1269,16 @@ def c19_run(rep, tier, seed, tr):
             fault = raw["meta"]["fault"]
             env = {"BLOCKWATCH_TERMINAL_MODE": "1", "BLOCKWATCH_AI_MODEL": f"model-{i}", "BLOCKWATCH_AI_API_KEY": f"key-{i}",
                    "BLOCKWATCH_AI_API_URL": f"http://127.0.0.1:{fake.port}/v1", "NO_PROXY": "127.0.0.1", "no_proxy": "127.0.0.1"}
+            # the surrounding environment may hold the OpenAI SDK's own variables: only BLOCKWATCH_AI_* may decide key,
+            # endpoint and model (two scenarios in three carry such ambient values, pointing at a closed port)
+            if i % 3 != 0:
+                env.update({"OPENAI_API_KEY": "sk-ambient", "OPENAI_ADMIN_KEY": "sk-admin-ambient", "OPENAI_BASE_URL": "http://127.0.0.1:9/v1",
+                            "OPENAI_API_BASE": "http://127.0.0.1:9/v1", "OPENAI_ORG_ID": "org-ambient", "OPENAI_PROJECT_ID": "proj-ambient"})
             if fault == "no-key":
-                del env["BLOCKWATCH_AI_API_KEY"]
+                if i % 2 == 0:
+                    del env["BLOCKWATCH_AI_API_KEY"]
+                else:
+                    env["BLOCKWATCH_AI_API_KEY"] = ""
             if fault == "refused":
                 s = __import__("socket").socket(); s.bind(("127.0.0.1", 0)); port = s.getsockname()[1]; s.close()
                 env["BLOCKWATCH_AI_API_URL"] = f"http://127.0.0.1:{port}/v1"
